@@ -242,6 +242,13 @@ struct Ex {
         }
         if (auto *x = dyn_cast<CXXMemberCallExpr>(e)) {
             const CXXMethodDecl *MD = x->getMethodDecl();
+            if (!MD)
+                if (auto *BO = dyn_cast<BinaryOperator>(x->getCallee()->IgnoreParens()))
+                    if (BO->isPtrMemOp()) {
+                        // `(obj.*pm)(args)`: a call through a pointer to member function
+                        KV kv{{"callee", std::string()}, {"calleeExpr", E(BO)}, {"args", args(x->arguments())}, {"t", ty(x->getType())}};
+                        return node("call", std::move(kv), e);
+                    }
             std::string callee = MD ? MD->getQualifiedNameAsString() : "?";
             const Expr *obj = x->getImplicitObjectArgument();
             KV kv{{"obj", E(obj)}, {"callee", callee}, {"args", args(x->arguments())}, {"t", ty(x->getType())}};
